@@ -276,10 +276,11 @@ var allowedLoserCodes = map[codes.Code]bool{
 }
 
 func run(r *vk.Run) {
-	r.Describe("histories of 2-4 concurrent writers on one Value / 1-3 collection ids (Set/Add/Update/Delete/Get with CAS, expected checks, delta interceptors, create-if-absent, generated ids; every written value uniquely tagged) recorded at the call boundary with a logical clock and checked with porcupine against the sequential model, partitioned per id, plus independent conservation checks (sum of successful increments, uniqueness of generated ids, at most one successful Add per absent id). Forced part: victim op x window {gau.afterRead, gau.beforeLock, col.delete.afterRead, col.delete.beforeLock} x interfering op sequence x pre-state, depth 2 with a second victim parked inside the first; the same two windows for Value.Set on a Value with and without a stored value; plus writer A parked between commit and publication (value.set.beforePublish / col.update.beforePublish) while writer B commits, with and without a live subscriber. Stress part: random histories with pseudo-random yields at all hook points. Distinct = (victim, window, interferer, pre-state) triples reached, resp. distinct outcome vectors of stress histories.",
+	r.Describe("histories of 2-4 concurrent writers on one Value / 1-3 collection ids (Set/Add/Update/Delete/Get with CAS, expected checks, delta interceptors, create-if-absent, generated ids; every written value uniquely tagged) recorded at the call boundary with a logical clock and checked with porcupine against the sequential model, partitioned per id, plus independent conservation checks (sum of successful increments, uniqueness of generated ids, at most one successful Add per absent id). Forced part: victim op x window {gau.afterRead, gau.beforeLock, col.delete.afterRead, col.delete.beforeLock} x interfering op sequence x pre-state, depth 2 with a second victim parked inside the first; the same two windows for Value.Set on a Value with and without a stored value; plus a conditional Delete / Update interfered with on every one of its attempts (1-9 times, the last interference leaving a version the condition refuses); plus writer A parked between commit and publication (value.set.beforePublish / col.update.beforePublish) while writer B commits, with and without a live subscriber. Stress part: random histories with pseudo-random yields at all hook points. Distinct = (victim, window, interferer, pre-state) triples reached, resp. distinct outcome vectors of stress histories.",
 		"Aborted/Unavailable are always-legal no-ops; FailedPrecondition/AlreadyExists/NotFound/check errors are legal only in a state that justifies them",
 		"a porcupine timeout (60 s per partition) is inconclusive, never a violation")
 	forced(r)
+	forcedRetryBudget(r)
 	forcedValue(r)
 	forcedPublish(r)
 	stress(r)
@@ -627,6 +628,65 @@ func forcedValue(r *vk.Run) {
 					judge(r, model, init, g, "C02/forced/"+key, map[string]any{"victim": a.name, "window": window, "interferer": b.name, "pre": pre})
 				}
 			}
+		}
+	}
+}
+
+// forcedRetryBudget: a conditional Delete (and a conditional Update) is interfered with on EVERY attempt: each time
+// it is about to take the write lock another writer has just stored a new version. The first versions satisfy the
+// precondition, the last one does not. Whatever the call does when its attempts run out, it must not remove (or
+// overwrite) a version its precondition never saw: the recorded history must stay explainable one call at a time.
+func forcedRetryBudget(r *vk.Run) {
+	sched := vk.NewSched()
+	defer sched.Close()
+	idx := 0
+	for _, victim := range []string{"delete-check", "delete-check-allowmissing", "update-check"} {
+		for _, budget := range []int{1, 3, 5, 6, 9} {
+			idx++
+			if !r.Mine(idx) {
+				continue
+			}
+			model := &sm.Model{Cfg: sm.Config{NilWritable: true}, Type: info()}
+			init := sm.State{"a": sm.Item{Msg: &tat{DefaultString: "init", DefaultInt32: 1, DefaultInt64: 100}}}
+			g := newRig(model, init, r.Rand("forced-retry"))
+			key := fmt.Sprintf("retry-budget/%s/%d-interferences", victim, budget)
+			if !r.Selected("C02/forced/" + key) {
+				continue
+			}
+			point := "col.delete.beforeLock"
+			if victim == "update-check" {
+				point = "gau.beforeLock"
+			}
+			hits, busy := 0, false
+			sched.Tap(func(p string, _, _ any) {
+				if p != point || busy || hits >= budget {
+					return
+				}
+				busy = true
+				hits++
+				parity := int32(1) // satisfies the expected check
+				if hits == budget {
+					parity = 0 // the version left behind would be refused
+				}
+				g.do(1, opUpdate("a", g.val3(1, parity), sm.Opts{}))
+				busy = false
+			})
+			switch victim {
+			case "delete-check":
+				g.do(0, sm.Op{Kind: sm.Delete, ID: "a", Opts: sm.Opts{ExpectCheck: true}})
+			case "delete-check-allowmissing":
+				g.do(0, sm.Op{Kind: sm.Delete, ID: "a", Opts: sm.Opts{ExpectCheck: true, AllowMissing: true}})
+			default:
+				g.do(0, opUpdate("a", g.val3(0, 1), sm.Opts{ExpectCheck: true}))
+			}
+			sched.Tap(nil)
+			g.do(9, sm.Op{Kind: sm.Get, ID: "a"})
+			r.Eval(1)
+			r.Count("forced-windows-reached", 1)
+			r.Count("forced-retry-budget-scenarios", 1)
+			r.Count(fmt.Sprintf("forced-retry-budget-interferences-%d", hits), 1)
+			r.Distinct(fmt.Sprintf("forced:%s:%d", key, hits))
+			judge(r, model, init, g, "C02/forced/"+key, map[string]any{"victim": victim, "interferences": budget})
 		}
 	}
 }
